@@ -459,6 +459,94 @@ def run(ctx):
             ('kronp', [A.toarray().astype(int).tolist() for A in As], rows, restrict))
         ctx.count('kron_partial')
 
+    # constructors and structure algebra of the library itself (the streams above build structures from raw
+    # (bs, bidx)): multi_banded / dense / from_kvs / from_matrix / from_kronecker / join / slice /
+    # make_mlmatrix(matrix=) / MLMatrix.reorder / the dense Van Loan-Pitsianis reorder()
+    def sfmt(S):
+        return fmt_struct([tuple(int(v) for v in b) for b in S.bs], [[(int(e[0]), int(e[1])) for e in p] for p in S.bidx])
+
+    def nz(S, lower=False):
+        def f():
+            I, J = S.nonzero(lower_tri=lower)
+            return fmt_pairs(I.tolist(), J.tolist())
+        return f
+    nct = 120 if ctx.tier == 'quick' else 1500
+    for _ in range(nct):
+        L = int(rng.integers(1, 5))
+        # multi_banded: per level the banded pattern of the model, sizes (n, n)
+        ns = [int(rng.integers(1, 5)) for _ in range(L)]; bws = [int(rng.integers(0, 4)) for _ in range(L)]
+        Sb = mlmatrix.MLStructure.multi_banded(ns, bws)
+        if [tuple(int(v) for v in b) for b in Sb.bs] != [(n, n) for n in ns]:
+            ctx.violation('ml-ctor:multi_banded', 'multi_banded block sizes %s for sizes %s' % (Sb.bs, ns), {'ns': ns, 'bws': bws}, True)
+        for k in range(L):
+            add('banded %d %d' % (ns[k], bws[k]), fmt_pairs(Sb.bidx[k][:, 0].tolist(), Sb.bidx[k][:, 1].tolist()), ('ctor-banded', ns, bws, k))
+        if L >= 2:
+            add('nonzero 0 %s' % sfmt(Sb), nz(Sb), ('nonzero', [(n, n) for n in ns], [[tuple(map(int, e)) for e in p] for p in Sb.bidx], False))
+        # dense
+        m, n = int(rng.integers(1, 5)), int(rng.integers(1, 5))
+        Sd = mlmatrix.MLStructure.dense((m, n))
+        add('dense %d %d' % (m, n), fmt_pairs(Sd.bidx[0][:, 0].tolist(), Sd.bidx[0][:, 1].tolist()), ('ctor-dense', m, n))
+        # from_matrix / from_kronecker / join / slice on random sparse integer factors
+        As = []
+        for _k in range(L):
+            mm, nn = int(rng.integers(1, 4)), int(rng.integers(1, 4))
+            a = rng.integers(1, 4, size=(mm, nn)) * (rng.random((mm, nn)) < 0.6)
+            if not a.any():
+                a[int(rng.integers(0, mm)), int(rng.integers(0, nn))] = 1
+            As.append(scipy.sparse.csr_matrix(a.astype(float)))
+        raw_bs = [tuple(A.shape) for A in As]
+        raw_bidx = [sorted(zip(*[v.tolist() for v in A.nonzero()])) for A in As]     # row-major = canonical CSR order
+        Sk = mlmatrix.MLStructure.from_kronecker(As)
+        if sfmt(Sk) != fmt_struct(raw_bs, raw_bidx):
+            ctx.violation('ml-ctor:from_kronecker', 'from_kronecker(As) is not ((shape_k), (nonzero pattern of A_k in row-major order))',
+                          {'As': [A.toarray().tolist() for A in As], 'got': sfmt(Sk), 'want': fmt_struct(raw_bs, raw_bidx)}, True)
+        K = reduce(np.kron, [A.toarray() for A in As]) if L > 1 else As[0].toarray()
+        if L >= 2:
+            add('nonzero 0 %s' % fmt_struct(raw_bs, raw_bidx), nz(Sk), ('nonzero', raw_bs, raw_bidx, False))
+            a0, a1 = sorted(int(v) for v in rng.integers(0, L + 1, size=2))
+            if a0 < a1:
+                Ssl = Sk.slice(a0, a1)
+                if sfmt(Ssl) != fmt_struct(raw_bs[a0:a1], raw_bidx[a0:a1]):
+                    ctx.violation('ml-ctor:slice', 'slice(%d,%d) is not the sub-list of levels' % (a0, a1),
+                                  {'bs': raw_bs, 'bidx': raw_bidx, 'got': sfmt(Ssl)}, True)
+                Sj = Ssl.join(Sk.slice(a1, L)) if a1 < L else Ssl
+                if sfmt(Sj) != fmt_struct(raw_bs[a0:], raw_bidx[a0:]):
+                    ctx.violation('ml-ctor:join', 'slice(%d,%d).join(slice(%d,%d)) is not the concatenation of the levels' % (a0, a1, a1, L),
+                                  {'bs': raw_bs, 'bidx': raw_bidx, 'got': sfmt(Sj)}, True)
+        # make_mlmatrix(matrix=K): the data tensor holds K at the layout positions; asmatrix gives K back
+        def f(Sk=Sk, K=K):
+            Mk = Sk.make_mlmatrix(matrix=scipy.sparse.csr_matrix(K) if rng.integers(0, 2) else K)
+            A = Mk.asmatrix('coo').tocsr(); A.sum_duplicates(); A.eliminate_zeros(); Ac = A.tocoo()
+            return plist(sorted(zip(Ac.row.tolist(), Ac.col.tolist(), Ac.data.tolist())), lambda t: '%d,%d,%d' % (t[0], t[1], int(t[2])))
+        vals = [np.array([A[i, j] for (i, j) in p], dtype=float) for A, p in zip(As, raw_bidx)]
+        Xk = reduce(np.multiply.outer, vals)
+        add('asmat %s %s' % (fmt_struct(raw_bs, raw_bidx), plist(Xk.ravel().astype(int).tolist())), f, ('asmat', raw_bs, raw_bidx, Xk.ravel().tolist()))
+        # MLMatrix.reorder(axes): levels and data axes permuted together
+        if L >= 2:
+            axes = [int(a) for a in rng.permutation(L)]
+            Xr = rng.integers(-4, 5, size=Xk.shape).astype(float)
+
+            def f(Sk=Sk, Xr=Xr, axes=axes):
+                Mr = mlmatrix.MLMatrix(structure=Sk, data=Xr).reorder(axes)
+                A = Mr.asmatrix('coo').tocsr(); A.sum_duplicates(); A.eliminate_zeros(); Ac = A.tocoo()
+                return plist(sorted(zip(Ac.row.tolist(), Ac.col.tolist(), Ac.data.tolist())), lambda t: '%d,%d,%d' % (t[0], t[1], int(t[2])))
+            add('asmat %s %s' % (fmt_struct([raw_bs[a] for a in axes], [raw_bidx[a] for a in axes]),
+                                 plist(np.transpose(Xr, axes).ravel().astype(int).tolist())), f, ('mlreorder', raw_bs, raw_bidx, axes))
+        # dense reorder(X, m1, n1): Y[i, j] = X[reindex_from_reordered(i, j)] (positions from the model)
+        m1, n1, m2, n2 = (int(v) for v in rng.integers(1, 4, size=4))
+        Xd = np.arange(m1 * m2 * n1 * n2, dtype=float).reshape(m1 * m2, n1 * n2)       # entry value = its ravelled position
+        Yd = mlmatrix.reorder(Xd, m1, n1)
+        i, j = int(rng.integers(0, m1 * n1)), int(rng.integers(0, m2 * n2))
+        pos = int(Yd[i, j]); add('rfr %d %d %d %d %d %d' % (i, j, m1, n1, m2, n2), '%d %d' % (pos // (n1 * n2), pos % (n1 * n2)), ('vlp-reorder', m1, n1, m2, n2, i, j))
+        ctx.count('constructor cases')
+    # from_kvs: block sizes (numdofs of the second, of the first space) and the knot-vector sparsity per level
+    for (kv1, kv2, b) in kv_cases[:40]:
+        Sf = mlmatrix.MLStructure.from_kvs((kv1,), (kv2,))
+        want = fmt_struct([(int(kv2.numdofs), int(kv1.numdofs))], [[(int(e[0]), int(e[1])) for e in b]])
+        if sfmt(Sf) != want:
+            ctx.violation('ml-ctor:from_kvs', 'from_kvs is not ((kv1.numdofs, kv0.numdofs), compute_sparsity_ij(kv0, kv1))',
+                          {'kv0': kv1.kv.tolist(), 'p0': kv1.p, 'kv1': kv2.kv.tolist(), 'p1': kv2.p, 'got': sfmt(Sf)[:400]}, True)
+
     got = ctx.model('drv_c15', req)
     ndis = 0
     for r, e, g, m in zip(req, exp, got, meta):
@@ -468,7 +556,7 @@ def run(ctx):
                 continue
             # search: model-free oracle on the implementation
             found = None
-            if m[0] in ('nonzero', 'rows', 'cols', 'asmat', 'matvec', 'reorder', 'transpose', 'nznd'):
+            if m[0] in ('nonzero', 'rows', 'cols', 'asmat', 'matvec', 'reorder', 'transpose', 'nznd', 'sbidx', 'gent', 'gent2', 'mlreorder'):
                 found = oracle_struct(m[1], m[2], np.random.default_rng(1))
                 if found is None and m[0] == 'nznd':
                     S = mk_struct(m[1], m[2])
